@@ -180,38 +180,55 @@ def run(ctx, anchors=None):
     ctx.inst(ins_map is not None and ins_set is not None and ins_map[1] == ins_set[0], "R11.4", "same-key-in-map-and-set", pf.loc(ins_map[2]) if ins_map else pf.loc(),
              "map[sig] = K and set.insert(K) use the same value",
              "the parser stores %s in the map but %s in the key set" % (ins_map[1] if ins_map else "?", ins_set[0] if ins_set else "?"))
-    sws = S.find_switches(pf)
+    # the 'signature seen' state: one boolean local, refused when set at ':' and when clear at ',' / end, written only by constants;
+    # independent of whether the separator dispatch is a switch or an if-chain
     flag_ok = False
     msgs = []
-    if sws:
-        groups = S.case_groups(sws[0])
-        colon = [g for g in groups if 58 in [v for (_n, v, _c) in g.labels]]
-        comma = [g for g in groups if 44 in [v for (_n, v, _c) in g.labels]]
-        if colon and comma:
-            def refusal(g, want_neg):
-                for n in g.nodes():
-                    if n["k"] == "if" and any(x["k"] == "return" and astq.const_value(x.get("e")) == 0 for x in walk(n["then"])):
-                        a, neg = S.strip_not(n["cond"])
-                        if a is not None and a.get("k") == "ref" and a.get("dk") == "local" and a.get("ty") == "bool" and neg == want_neg:
-                            return a
-                        return None
-                return None
-            fc = refusal(colon[0], False)
-            fm = refusal(comma[0], True)
-            if fc is None or fm is None or fc["d"] != fm["d"]:
-                msgs.append("the unexpected-colon / missing-signature refusals are not keyed on one boolean parser-state flag")
-            else:
-                def sets(g, val):
-                    return any(n["k"] == "assign" and n["lhs"].get("k") == "ref" and n["lhs"].get("d") == fc["d"] and n["rhs"].get("k") == "bool" and n["rhs"]["v"] == val for n in g.nodes())
-                if not sets(colon[0], True):
-                    msgs.append("the flag is not set to true after a signature was read")
-                if not sets(comma[0], False):
-                    msgs.append("the flag is not cleared after a pair was stored")
-                flag_ok = not msgs
-        else:
-            msgs.append("':' / ',' cases not found")
+    pcfg = pf.cfg()
+
+    def separators(node):
+        """separator constants under which node executes: case labels of the enclosing group / `*c == K` guards"""
+        out = set()
+        for anc in pf.ancestors(node):
+            if anc.get("k") == "switch":
+                for g in S.case_groups(anc):
+                    if g.contains(node):
+                        out |= {v for (_n, v, _c) in g.labels if isinstance(v, int)}
+        for (c, t) in S.ast_guards(pf, node):
+            if t:
+                for d in S.disjuncts(c):
+                    if d is not None and d.get("k") == "bin" and d["op"] == "==":
+                        for side in (d["lhs"], d["rhs"]):
+                            v = astq.const_value(side)
+                            if v is not None:
+                                out.add(v)
+        return out
+    refusals = {}
+    for n in pf.nodes():
+        if n["k"] == "if" and any(x["k"] == "return" and astq.const_value(x.get("e")) == 0 for x in walk(n["then"])):
+            a_, neg = S.strip_not(n["cond"])
+            if a_ is not None and a_.get("k") == "ref" and a_.get("dk") == "local" and a_.get("ty") == "bool":
+                refusals.setdefault(a_["d"], []).append((neg, n))
+    cand = [d for d, lst in refusals.items() if {neg for (neg, n) in lst} == {True, False}]
+    if len(cand) != 1:
+        msgs.append("the unexpected-colon / missing-signature refusals are not keyed on one boolean parser-state flag")
     else:
-        msgs.append("separator switch not found")
+        d_ = cand[0]
+        writes = [n for n in pf.nodes() if n["k"] in ("assign", "cassign") and n["lhs"].get("k") == "ref" and n["lhs"].get("d") == d_]
+        nonconst = [n for n in writes if not (n["k"] == "assign" and n["rhs"].get("k") == "bool")]
+        set_t = [n for n in writes if n["k"] == "assign" and n["rhs"].get("k") == "bool" and n["rhs"]["v"]]
+        set_f = [n for n in writes if n["k"] == "assign" and n["rhs"].get("k") == "bool" and not n["rhs"]["v"]]
+        pos = [n for (neg, n) in refusals[d_] if not neg]
+        negs = [n for (neg, n) in refusals[d_] if neg]
+        if nonconst:
+            msgs.append("the flag is written from a non-constant")
+        if not set_t or not all(any(pcfg.dominates(r_["cond"], n) for r_ in pos) and 58 in separators(n) for n in set_t):
+            msgs.append("the flag is not set to true after a signature was read (at ':' after the unexpected-colon refusal)")
+        if not set_f or not all(any(pcfg.dominates(r_["cond"], n) for r_ in negs) and 44 in separators(n) for n in set_f):
+            msgs.append("the flag is not cleared after a pair was stored (at ',' after the missing-signature refusal)")
+        if not all(58 in separators(n) for n in pos) or not all(44 in separators(n) for n in negs):
+            msgs.append("the refusals are not under the ':' / ',' separators")
+        flag_ok = not msgs
     ctx.site()
     ctx.inst(flag_ok, "R11.4", "parser-state-flag", pf.loc(), "signature-seen state is a boolean flag set/cleared by constants; both malformed-list edges return false",
              "pair-list parser: %s - acceptance of malformed lists now depends on token contents (e.g. an empty signature)" % "; ".join(msgs))
